@@ -648,6 +648,8 @@ def col_bounded(w, S, R, t, gs):
 
 def run(ctx, w):
     _run(ctx, w)
+    shared.invariant_rule(ctx, w, shared.screen(w), shared.roles(w), "V12")
+    shared.mode_rule(ctx, w, shared.screen(w), shared.roles(w), "V13")
     # HT / CHT / CBT are relative moves of this property: the tab table they consult must be right (defaults every 8
     # columns incl. after widening, the n-th stop search, the fallback to the last / first column)
     from rules import c18
